@@ -16,16 +16,16 @@ TRUSTED = ['Gen/Kernels.v is regenerated from kernel_repetition_code.py / kernel
            'loops are pinned by shape, any deviation is a translator error)',
            'C12/Model.v: hand-written fold of the kernel-building loops (first kernel FixedIndexStrategy(0), then '
            'RelativeIndexStrategy(previous)), tied by comparison of every public getter on every generated case']
-ASSUMPTIONS = ['int(dataset_size / cycle_length) is modelled as exact integer division (Z.quot); Python evaluates a binary64 true division: '
-               'exact while the quotient (the repetition count) is at most 2^53, beyond that the method raises its own AssertionError for '
-               'exact multiples (finding F9, e.g. rounds [1], not heralded, no calibration, size 2^53+1); generated sizes stay below 2^40',
+ASSUMPTIONS = ['Python int arithmetic is exact: `dataset_size // cycle_length` is translated to Z.div (since the F9 fix d0955ff there is no float '
+               'division left in the anchored code; the generator records float_division_sites = 0 and would model an `int(a / b)` as Z.quot)',
                'qubit identifiers are modelled as integers; membership `q in ids` = some element is ==-equal (QubitIDObj equality is name equality, C19)',
                'numpy int arrays are lists of integers; the empty answer np.asarray([]) is the empty list',
                'the dynamic index_offset_strategy.get_index(self) is modelled as a start_index field filled by the chaining rule of __init__ (pinned by the generator)']
 RULE = ('quick: every rounds list of length <= 3 with distinct entries over 0..5 (156) x heralded on/off x repetitions 1..3, calibration flag drawn, '
         'queried qubit = an ancilla and one of (data qubit, uninvolved id, id present in both lists); 150 random longer lists (length 4..6, distinct '
         'entries 0..40); every cycle_stabilizer_count of the list plus one absent count is queried; a malformed stream (empty list, duplicate / negative '
-        'entries) compared by error class. thorough: lists of length <= 4 over 0..6, 1500 random lists up to length 8 / entries up to 100 / 6 repetitions. '
+        'entries) compared by error class; every description is run twice: kind exp (all getters) and kind est (the estimate clause alone, on '
+        'reps x L, reps x L + 1, reps x repetition-kernel length (+ 1) and a random size), plus two est cases with repetition counts above 2^53 (F9 regression). thorough: lists of length <= 4 over 0..6, 1500 random lists up to length 8 / entries up to 100 / 6 repetitions. '
         'non-trivial: at least two kernels, or a 0-/1-round block, with the queried qubit involved')
 
 
@@ -47,7 +47,17 @@ def exp_case(rng, rounds, h, reps, qkind, c=None):
     absent = next(n for n in itertools.count(0) if n not in rounds)
     queries = list(dict.fromkeys(rounds)) + [absent]
     return {'k': 'exp', 'rounds': list(rounds), 'h': h, 'c': rng.random() < 0.5 if c is None else c, 'reps': reps, 'data': data, 'anc': anc,
-            'q': q, 'qkind': qkind, 'queries': queries, 'sizes': [rng.randint(0, 400)]}
+            'q': q, 'qkind': qkind, 'queries': queries}
+
+
+def est_case(rng, e, sizes=None):
+    """the estimate clause for the description of exp case e"""
+    return {'k': 'est', 'rounds': e['rounds'], 'h': e['h'], 'c': e['c'], 'reps': e['reps'], 'data': e['data'], 'anc': e['anc'],
+            'sizes': [rng.randint(0, 400)] if sizes is None else sizes}
+
+
+KNOWN_F12 = 'experiment description with qutrit_calibration_points=False'
+F12_WITNESS = {'k': 'est', 'rounds': [1], 'h': False, 'c': False, 'reps': 2, 'data': [0], 'anc': [10], 'sizes': []}
 
 
 def gen_cases(rng, tier):
@@ -58,11 +68,17 @@ def gen_cases(rng, tier):
             for h in (False, True):
                 for reps in (1, 2, 3):
                     cases.append(exp_case(rng, rounds, h, reps, 'anc'))
+                    cases.append(est_case(rng, cases[-1]))
                     cases.append(exp_case(rng, rounds, h, reps, rng.choice(['data', 'none', 'both'])))
+                    cases.append(est_case(rng, cases[-1]))
     nrand, lmax, vmax, rmax = (1500, 8, 100, 6) if tier == 'thorough' else (150, 6, 40, 3)
     for _ in range(nrand):
         rounds = rng.sample(range(vmax + 1), rng.randint(4, lmax))
         cases.append(exp_case(rng, rounds, rng.random() < 0.5, rng.randint(1, rmax), rng.choice(['anc', 'anc', 'data', 'none', 'both'])))
+        cases.append(est_case(rng, cases[-1]))
+    # dataset sizes whose repetition count exceeds 2^53 (the estimate must still invert reps x cycle length exactly; F9 regression)
+    cases.append(est_case(rng, exp_case(rng, (1,), False, 1, 'anc', c=False), [2 ** 53 + 1, 3 * (2 ** 53 + 1), 4 * (2 ** 53 + 1)]))
+    cases.append(est_case(rng, exp_case(rng, (3,), True, 1, 'anc', c=True), [10 * (2 ** 53 + 1), 10 * (2 ** 60 + 7)]))
     # malformed stream: only the error class is compared
     for h in (False, True):
         for c in (False, True):
@@ -76,8 +92,30 @@ def corpus():
     # hand-picked: the suite's list; 0- and 1-round blocks next to the heralded offset; flag off
     import random
     r = random.Random(12)
-    return [exp_case(r, [0, 3, 6, 2], True, 2, 'anc', c=True), exp_case(r, [0], False, 1, 'anc', c=False),
+    exps = [exp_case(r, [0, 3, 6, 2], True, 2, 'anc', c=True), exp_case(r, [0], False, 1, 'anc', c=False),
             exp_case(r, [1, 0], True, 3, 'both', c=False), exp_case(r, [5], False, 1, 'data', c=True)]
+    # the witness of known finding F15 (known_findings.json) is replayed first on every run
+    return [dict(F12_WITNESS)] + exps + [est_case(r, exps[0]), est_case(r, exps[3])]
+
+
+def est_expected(L, size):
+    """Python mirror of the single clause estimate_ok of C12/Run.v: n on n x L, AssertionError elsewhere"""
+    if L >= 1 and size % L == 0:
+        return {'v': size // L}
+    return {'error': 'AssertionError'}
+
+
+def known_class(c, o):
+    """F15: with qutrit_calibration_points=False the estimate leaves the calibration kernel out while kernel_cycle_length keeps it.
+    Only an est case (whose spec_ok is the estimate-vs-kernel-cycle-length clause and nothing else) with c = False is excused, and
+    only when (a) the mirror of that clause really fails and (b) every answer is the exact inversion with respect to the
+    repetition-kernel length L_rep (the known behaviour).  Anything else of a c = False description stays a VIOLATION."""
+    if c.get('k') != 'est' or c.get('c') is not False or 'error' in o:
+        return None
+    pairs = list(zip(o['sizes'], o['ests']))
+    clause_fails = any(e != est_expected(o['L'], s) for s, e in pairs)
+    known_behaviour = o['L'] > o['L_rep'] >= 1 and all(e == est_expected(o['L_rep'], s) for s, e in pairs)
+    return KNOWN_F12 if clause_fails and known_behaviour else None
 
 
 def lz(l):
@@ -96,6 +134,8 @@ def outcome(o):
 
 def to_coq(c, o):
     head = f"{lz(c['rounds'])} {cbool(c['h'])} {cbool(c['c'])} {cz(c['reps'])} {lz(c['data'])} {lz(c['anc'])}"
+    if c['k'] == 'est' and 'error' not in o:
+        return f"(CEst {head} {cz(o['L'])} {lz(o['sizes'])} {clist([outcome(e) for e in o['ests']])})"
     if c['k'] == 'err' or 'error' in o:
         if 'error' in o:    # the whole case raised: recorded as a failed construction (agree and spec_ok both reject it for a proper input)
             e = o['error'] if o['error'] in ('IndexError', 'AssertionError') else 'OtherError'
@@ -108,31 +148,39 @@ def to_coq(c, o):
     calt = f"(MkCobs {cz(cal['start'])} {cz(cal['stop'])} {cz(cal['len'])} {mat(cal['her'])} {mat(cal['st'])} {lz(cal['contains'])})"
     qs = clist([f"(MkQobs {cz(x['n'])} {mat(x['her'])} {mat(x['sp'])} {mat(x['proj'])})" for x in o['qs']])
     return (f"(CExp {head} {cz(c['q'])} {cz(o['start'])} {cz(o['stop'])} {cz(o['L'])} {cz(o['klen'])} {cz(o['xreps'])} {ks} {calt} {qs} "
-            f"{mat(o['cal_her'])} {mat(o['cal_proj'])} {lz(o['sizes'])} {clist([outcome(e) for e in o['ests']])})")
+            f"{mat(o['cal_her'])} {mat(o['cal_proj'])})")
 
 
 def kind(c):
+    if c['k'] == 'est':
+        return f"est/c={'on' if c['c'] else 'off'}"
     return c['k'] if c['k'] == 'err' else f"exp/{c['qkind']}/len{min(len(c['rounds']), 4)}{'+' if len(c['rounds']) > 4 else ''}"
 
 
 def nontrivial(c, o):
+    if c['k'] == 'est':
+        return len(c['rounds']) >= 2 or min(c['rounds']) <= 1
     return c['k'] == 'exp' and c['qkind'] != 'none' and (len(c['rounds']) >= 2 or min(c['rounds']) <= 1)
 
 
 def sample(c, o):
-    if c['k'] == 'err' or 'error' in o:
+    if c['k'] != 'exp' or 'error' in o:
         return {'input': c, 'impl': o}
-    return {'input': c, 'impl': {k: o[k] for k in ('start', 'stop', 'L', 'ks', 'cal', 'sizes', 'ests')}}
+    return {'input': c, 'impl': {k: o[k] for k in ('start', 'stop', 'L', 'ks', 'cal')}}
 
 
 LEVEL_TEXT = ('Machine-checked theorems (Coq) over kernel definitions regenerated from the Python source on every run, for ALL non-empty rounds lists, both '
               'heralded / calibration flags, all identifier lists and repetition counts: kernels back to back from 0 with the calibration kernel last and none '
               'empty; every index category inside its kernel; all categories of a qubit strictly increasing hence pairwise disjoint (within a cycle and over '
               'all repetitions); an ancilla covers every block with >= 1 round and the calibration block exactly, and a 0-round block except exactly its final '
-              'slot; every getter returns translates by the cycle length; the estimate returns n exactly on n x cycle length and raises otherwise. '
-              'Correspondence: every public getter compared with the model and judged by the in-Coq specification on exhaustive small rounds lists.')
+              'slot; every getter returns translates by the cycle length; the estimate returns n exactly on n x (its own) cycle length and raises its assertion '
+              'elsewhere, and with calibration points on that cycle length is the kernel cycle length (exact integer division, no float assumption since the F9 fix). '
+              'With the flag off the estimate does not invert repetitions x kernel_cycle_length: proved as C12_estimate_vs_kernel_cycle_flag_off_refuted and '
+              'reported as known finding F15. Correspondence: every public getter compared with the model and judged by the in-Coq specification on exhaustive '
+              'small rounds lists; the estimate clause is judged strictly against the kernel cycle length, incl. repetition counts above 2^53.')
 LEVEL_NOTE = ('Trusted: Coq kernel, the ast translator (cross-checked by comparing every getter with the running code), the hand-written fold of the '
-              'kernel-building loop. Assumed: float division exact (holds below 2^53 repetitions; F9). Recorded quirks (theorems C12_*_refuted / '
-              'C12_experiment_stop_index_exclusive): the experiment kernel ignores qutrit_calibration_points while the estimate honours it; repeated round '
-              'counts hide all but the first kernel; the experiment kernel stop_index is exclusive. No axioms (Print Assumptions: closed).')
+              'kernel-building loop (its shape is pinned by the generator). Recorded quirks (theorems C12_*_refuted / C12_experiment_stop_index_exclusive): the '
+              'experiment kernel ignores qutrit_calibration_points while the estimate honours it (F15: est cases with the flag off fail spec_ok and are excused '
+              'only when every answer is the exact inversion w.r.t. the repetition-kernel length); repeated round counts hide all but the first kernel; the '
+              'experiment kernel stop_index is exclusive (not part of the property). No axioms (Print Assumptions: closed).')
 TECHNIQUE = 'Coq proof (induction over the rounds list + lia) over translator-generated definitions + exhaustive correspondence evaluated by vm_compute'
